@@ -12,4 +12,4 @@ from props._runner import run
 if __name__ == "__main__":
     run("C16", "exploration", files=["linear_labels.py"],
         notes="C16: run-time contract on the real code over an enumerated small scope (bounded stand-in, deciding); "
-              "direction of _map_substrates_to_labelmap characterised by a proved contract (known finding)")
+              "direction of _map_substrates_to_labelmap characterised by a proved contract (known finding); two more helpers proved")
